@@ -178,6 +178,14 @@ class _AttrCalls(ast.NodeTransformer):
         if isinstance(node.func, ast.Name) and node.func.id == "getattr" and len(node.args) == 2 and not node.keywords \
                 and isinstance(node.args[1], ast.Constant) and isinstance(node.args[1].value, str) and node.args[1].value.isidentifier():
             return ast.copy_location(ast.Attribute(value=node.args[0], attr=node.args[1].value, ctx=ast.Load()), node)
+        # N8: sum([a, b, c]) over a literal display of two or more items -> a + b + c (numbers: the leading `0 +` of sum() changes nothing)
+        if isinstance(node.func, ast.Name) and node.func.id == "sum" and len(node.args) == 1 and not node.keywords \
+                and isinstance(node.args[0], (ast.List, ast.Tuple)) and len(node.args[0].elts) >= 2 \
+                and not any(isinstance(e, ast.Starred) for e in node.args[0].elts):
+            acc = node.args[0].elts[0]
+            for e in node.args[0].elts[1:]:
+                acc = ast.copy_location(ast.BinOp(left=acc, op=ast.Add(), right=e), node)
+            return acc
         return node
 
 
@@ -426,6 +434,7 @@ class Normalizer:
         self.dead = set()
         self.unrolled = []
         self.split_handlers = []
+        self.lowered = []
         self._index()
 
     # -- index ------------------------------------------------------------------
@@ -595,7 +604,7 @@ class Normalizer:
         if getattr(fdef, "_normalised", False):
             return
         fdef._normalised = True
-        state = {"locals": _local_names(fdef), "caller": stack[0], "displays": _single_displays(fdef)}
+        state = {"locals": _local_names(fdef), "caller": stack[0], "displays": _single_displays(fdef), "module": modname}
         fdef.body = _flatten_blocks(self._stmts(fdef.body, modname, cname, stack, state))
 
     def _stmts(self, stmts, modname, cname, stack, state):
@@ -635,6 +644,15 @@ class Normalizer:
             if un is not None:
                 return un
             return self._hoist(st, "iter", modname, cname, stack, state)
+        if isinstance(st, ast.With) and len(st.items) == 1 and st.items[0].optional_vars is None and self._is_suppress(st.items[0].context_expr, modname):
+            # N10: with contextlib.suppress(A, B): BODY  ->  try: BODY except (A, B): pass
+            c = st.items[0].context_expr
+            typ = c.args[0] if len(c.args) == 1 else ast.copy_location(ast.Tuple(elts=list(c.args), ctx=ast.Load()), c)
+            h = ast.copy_location(ast.ExceptHandler(type=typ, name=None, body=[ast.copy_location(ast.Pass(), st)]), st)
+            new = ast.copy_location(ast.Try(body=st.body, handlers=[h], orelse=[], finalbody=[]), st)
+            ast.fix_missing_locations(new)
+            self.lowered.append((state["caller"], getattr(st, "lineno", 0), "suppress"))
+            return self._stmt(new, modname, cname, stack, state)
         if isinstance(st, (ast.With, ast.AsyncWith)):
             st.body = rec(st.body)
             return [st]
@@ -669,6 +687,10 @@ class Normalizer:
             new = ast.copy_location(ast.If(test=a, body=[s1], orelse=[s2]), st)
             ast.fix_missing_locations(new)
             return self._stmt(new, modname, cname, stack, state)
+        if isinstance(st, ast.Assign):
+            low = self._dict_get_lowering(st, modname, cname, state)
+            if low is not None:
+                return low
         if isinstance(st, (ast.Assign, ast.AnnAssign, ast.AugAssign, ast.Expr, ast.Return)):
             return self._hoist(st, "value", modname, cname, stack, state)
         return [st]
@@ -709,7 +731,7 @@ class Normalizer:
         # the helper's own helpers first (with the extended stack)
         hname = fdef.name.strip("_")
         hcls = qual.split(":")[1].split(".")[0] if "." in qual.split(":")[1] else None
-        sub_state = {"locals": _local_names(helper), "caller": qual}
+        sub_state = {"locals": _local_names(helper), "caller": qual, "module": modname}
         helper.body = self._stmts(helper.body, modname, hcls, stack + (qual,), sub_state)
         params = [a.arg for a in helper.args.args]
         if bound:
@@ -785,6 +807,79 @@ class Normalizer:
         self.inlined.append((state["caller"], qual))
         return blk, ret
 
+    def _is_suppress(self, e, modname):
+        if not (isinstance(e, ast.Call) and e.args and not e.keywords and not any(isinstance(a, ast.Starred) for a in e.args)):
+            return False
+        tree = self.modules[modname].tree
+        if isinstance(e.func, ast.Name):
+            for st in tree.body:
+                if isinstance(st, ast.ImportFrom) and st.module == "contextlib" and any(a.name == "suppress" and (a.asname or a.name) == e.func.id for a in st.names):
+                    return True
+            return False
+        if isinstance(e.func, ast.Attribute) and e.func.attr == "suppress" and isinstance(e.func.value, ast.Name):
+            for st in tree.body:
+                if isinstance(st, ast.Import) and any(a.name == "contextlib" and (a.asname or a.name) == e.func.value.id for a in st.names):
+                    return True
+        return False
+
+    # -- N9 ------------------------------------------------------------------------------
+    def _dict_get_lowering(self, st, modname, cname, state):
+        """x = D.get(K[, d]) with D a small constant dict display (class / module level, not a reference constant) and K a pure expression
+        ->  if K == k1: x = v1  elif K == k2: x = v2 ... else: x = d   (dict lookup on hashable constants is equality with a key)"""
+        if not (isinstance(st, ast.Assign) and len(st.targets) == 1 and isinstance(st.targets[0], ast.Name)):
+            return None
+        c = st.value
+        if not (isinstance(c, ast.Call) and isinstance(c.func, ast.Attribute) and c.func.attr == "get" and 1 <= len(c.args) <= 2 and not c.keywords):
+            return None
+        base = c.func.value
+        disp = None
+        if isinstance(base, ast.Name):
+            disp = self._module_display(modname, base.id)
+        elif isinstance(base, ast.Attribute) and isinstance(base.value, ast.Name):
+            owner = base.value.id
+            cd = None
+            if owner in ("self", "cls") and cname is not None:
+                cd = self.classes.get((modname, cname))
+                owner = cname
+            elif (modname, owner) in self.classes:
+                cd = self.classes[(modname, owner)]
+            if cd is not None and f"{modname}:{owner}.{base.attr}" not in self.known_c:
+                src = None
+                for s_ in cd.body:
+                    if isinstance(s_, ast.Assign) and any(isinstance(t, ast.Name) and t.id == base.attr for t in s_.targets):
+                        src = s_.value if src is None else False
+                # never re-bound or mutated through an attribute anywhere in the module
+                for n in ast.walk(self.modules[modname].tree):
+                    if isinstance(n, ast.Attribute) and n.attr == base.attr and isinstance(n.ctx, (ast.Store, ast.Del)):
+                        src = False
+                    if isinstance(n, ast.Subscript) and isinstance(n.ctx, (ast.Store, ast.Del)) and isinstance(n.value, ast.Attribute) and n.value.attr == base.attr:
+                        src = False
+                if isinstance(src, ast.Dict) and not self._descendants(owner):
+                    disp = src
+        if not isinstance(disp, ast.Dict) or not (1 <= len(disp.keys) <= 6) or any(k is None for k in disp.keys):
+            return None
+        if not all(_side_effect_free(k) for k in disp.keys) or not all(_side_effect_free(v) for v in disp.values):
+            return None
+        if len({ast.dump(k) for k in disp.keys}) != len(disp.keys):
+            return None
+        key = c.args[0]
+        pure = _side_effect_free(key) or (isinstance(key, ast.Call) and isinstance(key.func, ast.Name) and key.func.id in ("type", "len", "int", "str")
+                                          and len(key.args) == 1 and not key.keywords and _side_effect_free(key.args[0]))
+        dflt = c.args[1] if len(c.args) == 2 else ast.Constant(value=None)
+        if not pure or not _side_effect_free(dflt):
+            return None
+
+        def asg(v):
+            a = ast.Assign(targets=[copy.deepcopy(st.targets[0])], value=copy.deepcopy(v), type_comment=None)
+            return ast.copy_location(a, st)
+        node = [asg(dflt)]
+        for k, v in reversed(list(zip(disp.keys, disp.values))):
+            test = ast.Compare(left=copy.deepcopy(key), ops=[ast.Eq()], comparators=[copy.deepcopy(k)])
+            node = [ast.copy_location(ast.If(test=test, body=[asg(v)], orelse=node), st)]
+        ast.fix_missing_locations(node[0])
+        self.lowered.append((state["caller"], getattr(st, "lineno", 0), "dict.get"))
+        return node
+
     # -- N7 ------------------------------------------------------------------------------
     def _exc_rel(self, a, b):
         """Relation of exception classes named a and b: 'sub' (a is b or derives from it), 'disjoint' (no object is an instance of both,
@@ -833,14 +928,41 @@ class Normalizer:
                     return None
         return "disjoint"
 
+    def _module_display(self, modname, name):
+        """the list / tuple / dict display a module-level name is bound to (exactly once, never mutated by name elsewhere in the module),
+        unless the name is one of the reference constants"""
+        if modname is None or f"{modname}:{name}" in self.known_c:
+            return None
+        src = None
+        tree = self.modules[modname].tree
+        for st in tree.body:
+            if isinstance(st, ast.Assign) and any(isinstance(t, ast.Name) and t.id == name for t in st.targets):
+                src = st.value if src is None else False
+            elif isinstance(st, (ast.AugAssign, ast.AnnAssign)) and isinstance(st.target, ast.Name) and st.target.id == name:
+                src = False
+        if not isinstance(src, (ast.Tuple, ast.List, ast.Dict)):
+            return None
+        for n in ast.walk(tree):
+            if isinstance(n, ast.Name) and n.id == name and isinstance(n.ctx, (ast.Store, ast.Del)) and n not in [t for st in tree.body if isinstance(st, ast.Assign) for t in st.targets]:
+                return None
+            if isinstance(n, ast.Global) and name in n.names:
+                return None
+        return src
+
     def _split_handlers(self, handlers, state):
         """N7: `except (A, B) as e: BODY` -> `except A as e: BODY_A` / `except B as e: BODY_B` (same order, so the same clause set matches),
         each body specialised by deciding `isinstance(e, T)` tests from the clause's own class and the classes of the clauses before it."""
         out = []
         earlier = []        # class names of the clauses above (an exception reaching this clause is an instance of none of them)
         for h in handlers:
-            if isinstance(h.type, ast.Tuple) and h.type.elts and all(isinstance(e, (ast.Name, ast.Attribute)) for e in h.type.elts):
-                types = list(h.type.elts)
+            htype = h.type
+            if isinstance(htype, ast.Name):
+                # a module-level name bound once to a tuple display of class names stands for that display
+                src = self._module_display(state.get("module"), htype.id)
+                if isinstance(src, ast.Tuple):
+                    htype = src
+            if isinstance(htype, ast.Tuple) and htype.elts and all(isinstance(e, (ast.Name, ast.Attribute)) for e in htype.elts):
+                types = [copy.deepcopy(e) for e in htype.elts] if htype is not h.type else list(htype.elts)
             else:
                 types = [h.type]
             multi = len(types) > 1
